@@ -83,9 +83,9 @@ Qed.
 
 Lemma strtoint64_digits v : forall rv n, strtoint64 v rv = Some n -> forallb is_digit v = true.
 Proof.
-  induction v as [|c t IH]; intros rv n; simpl; [reflexivity|].
+  induction v as [|c t IH]; intros rv n; cbn [strtoint64 forallb]; [reflexivity|].
   destruct (is_digit c); [|discriminate]. destruct (rv >? INT64_MAX / 10)%Z; [discriminate|].
-  destruct (rv * 10 >? INT64_MAX - Z.of_N (c - 48))%Z; [discriminate|]. intros H. simpl. eapply IH. exact H.
+  destruct (rv * 10 >? INT64_MAX - Z.of_N (c - 48))%Z; [discriminate|]. intros H. cbn [andb]. eapply IH. exact H.
 Qed.
 
 (* the accumulated value never exceeds INT64_MAX once at least one digit was consumed, and equals
@@ -93,11 +93,13 @@ Qed.
 Lemma strtoint64_value v : forall rv n, (0 <= rv <= INT64_MAX)%Z -> strtoint64 v rv = Some n ->
   n = dec_val_acc rv v /\ (0 <= n <= INT64_MAX)%Z.
 Proof.
-  induction v as [|c t IH]; intros rv n Hrv; simpl.
+  induction v as [|c t IH]; intros rv n Hrv; cbn [strtoint64 dec_val_acc].
   - intros H; inversion H; subst. split; [reflexivity|lia].
   - destruct (is_digit c) eqn:Ed; [|discriminate]. destruct (rv >? INT64_MAX / 10)%Z eqn:E1; [discriminate|].
     destruct (rv * 10 >? INT64_MAX - Z.of_N (c - 48))%Z eqn:E2; [discriminate|].
-    intros H. apply IH in H; [exact H|]. unfold INT64_MAX in *. lia.
+    intros H. apply IH in H; [exact H|].
+    rewrite Z.gtb_ltb in E1, E2. apply Z.ltb_ge in E1, E2. unfold INT64_MAX in *.
+    pose proof (N2Z.is_nonneg (c - 48)). lia.
 Qed.
 
 (* two Content-Length fields can never both be taken *)
@@ -119,12 +121,12 @@ Theorem dup_content_length_rejected st pre v1 mid v2 post :
   forall st', fold_fields st (pre ++ (ID_CONTENT_LENGTH, v1) :: mid ++ (ID_CONTENT_LENGTH, v2) :: post) <> Go st'.
 Proof.
   intros st' H. rewrite fold_app in H.
-  destruct (fold_fields st pre) as [|st1]; [discriminate|]. simpl in H.
-  destruct (field_step st1 (ID_CONTENT_LENGTH, v1)) as [|st2] eqn:E1; [discriminate|].
+  destruct (fold_fields st pre) as [s0 r0|st1]; [discriminate H|]. cbn [fold_fields] in H.
+  destruct (field_step st1 (ID_CONTENT_LENGTH, v1)) as [s0 r0|st2] eqn:E1; [discriminate H|].
   apply cl_step in E1 as (_ & Hs2 & _).
-  rewrite fold_app in H. destruct (fold_fields st2 mid) as [|st3] eqn:E3; [discriminate|].
-  pose proof (fold_seen _ _ _ _ E3 Hs2) as Hs3. simpl in H.
-  destruct (field_step st3 (ID_CONTENT_LENGTH, v2)) as [|st4] eqn:E4; [discriminate|].
+  rewrite fold_app in H. destruct (fold_fields st2 mid) as [s0 r0|st3] eqn:E3; [discriminate H|].
+  pose proof (fold_seen _ _ _ _ E3 Hs2) as Hs3. cbn [fold_fields] in H.
+  destruct (field_step st3 (ID_CONTENT_LENGTH, v2)) as [s0 r0|st4] eqn:E4; [discriminate H|].
   apply cl_step in E4 as (Hn & _). congruence.
 Qed.
 
